@@ -158,6 +158,9 @@ namespace Detail
 					"The target field range is insufficient for the value being loaded");
 			}
 		}
+		catch (const SerializationException&) {
+			throw;
+		}
 		catch (...) {
 			throw SerializationException(SerializationErrorCode::ParsingError, "Unknown error when convert value");
 		}
